@@ -312,7 +312,8 @@ def compute_mask_sessions(session_images, m=0.2, M=0.9, cc=1, threshold=0.5,
                 mean = this_mean.astype(np.float64)
             else:
                 mean += this_mean
-        this_mask = this_mask.astype(np.int8)
+        # count votes in the platform integer: int8 wraps at 128 sessions
+        this_mask = this_mask.astype(np.int_)
         if mask is None:
             mask = this_mask
         else:
